@@ -1,9 +1,67 @@
 import SoundeventModel.Ops.Common
+import SoundeventModel.Matching
 namespace SE.Ops.C07
-open Lean SE
+open Lean SE SE.Matching
 
-def handle (op : String) (_a : Json) : Except String Json := do
+def getOptNat (j : Json) : Except String (Option Nat) :=
+  match j with
+  | .null => .ok none
+  | v => do return some (← v.getNat?)
+
+def optNatJ : Option Nat → Json
+  | none => Json.null
+  | some n => natJ n
+
+def entryJ (e : Entry) : Json := arrJ [optNatJ e.src, optNatJ e.tgt, ratJ e.aff]
+
+def getEntry (j : Json) : Except String Entry := do
+  match ← getArr j with
+  | [s, t, a] => return ⟨← getOptNat s, ← getOptNat t, ← getRat a⟩
+  | _ => .error "entry arity"
+
+def getPairNat (j : Json) : Except String (Nat × Nat) := do
+  match ← getNatList j with
+  | [r, c] => return (r, c)
+  | _ => .error "pair arity"
+
+/-- `n`, `m` and the matrix (shape checked: a wrong shape is a protocol error, not a verdict) -/
+def getMatrix (a : Json) : Except String (Nat × Nat × Mat) := do
+  let n ← fldNat a "n"
+  let m ← fldNat a "m"
+  let rows ← (← fldArr a "matrix").mapM getRatList
+  if rows.length ≠ n then .error "matrix: wrong number of rows"
+  else if rows.any (fun r => r.length != m) then .error "matrix: wrong row length"
+  else return (n, m, matOfRows rows)
+
+def errName : LoopErr → String
+  | .index => "crash:IndexError"
+  | .key => "key"
+
+def handle (op : String) (a : Json) : Except String Json := do
   match op with
+  | "match" =>
+    let (n, m, aff) ← getMatrix a
+    let assigned ← (← fldArr a "assigned").mapM getPairNat
+    match selectMatches n m aff assigned with
+    | .ok out => return valJ (arrJ (out.map entryJ))
+    | .error e => return Json.mkObj [("raise", Json.str (errName e))]
+  | "holds" =>
+    let (n, m, aff) ← getMatrix a
+    let out ← (← fldArr a "out").mapM getEntry
+    let tol ← fldRat a "tol"
+    let v := judge tol n m aff out
+    return Json.mkObj [("all", boolJ v.all), ("cover_src", boolJ v.coverSrc), ("cover_tgt", boolJ v.coverTgt),
+      ("entries", boolJ v.entries), ("optimal", boolJ v.optimal),
+      ("best", ratJ (bestValue n m aff)), ("total", ratJ (total out))]
+  | "contract" =>
+    -- scipy's contract on its answer: a valid assignment whose value is within `tol` of the optimum
+    let (n, m, aff) ← getMatrix a
+    let assigned ← (← fldArr a "assigned").mapM getPairNat
+    let tol ← fldRat a "tol"
+    let best := bestValue n m aff
+    let v := value aff assigned
+    return Json.mkObj [("valid", boolJ (validAssignment n m assigned)),
+      ("optimal", boolJ (decide (best ≤ v + tol))), ("best", ratJ best), ("value", ratJ v)]
   | _ => .error s!"C07: unknown op {op}"
 
 end SE.Ops.C07
